@@ -82,6 +82,18 @@ def step (st : Unit) (j : Json) : Unit × Json :=
             let pos : List (Float × Float) := rasterPositions nx ny
             pure ((), okJson (Json.arr ((fitPlanePCA pos z (a, b, c)).map floatToJson).toArray))
         | _ => throw "nrm"
+    | "surface" =>
+        -- the fitted family at the exact carrier, on the raster np.indices((nx, ny))
+        let nx ← natField j "nx"
+        let ny ← natField j "ny"
+        let θ ← ratList (← field j "theta")
+        let kind ← strField j "kind"
+        let out : List Rat := match kind with
+          | "constant" => List.replicate (nx * ny) (θ.getD 0 0)
+          | "plane" => surfaceOnRaster .plane θ nx ny
+          | "parabola" => surfaceOnRaster .parabola θ nx ny
+          | _ => surfaceOnRaster .bezierTwo θ nx ny
+        pure ((), okJson (Json.arr (out.map ratToJson).toArray))
     | "shift" =>
         let h ← natField j "h"
         let w ← natField j "w"
